@@ -13,7 +13,7 @@ _mem = {}
 def _src_hash():
     h = hashlib.sha256()
     d = os.path.dirname(os.path.abspath(__file__))
-    for f in ("grammar_ai.py", "grammar_run.py", "kernel.py"):
+    for f in ("grammar_ai.py", "grammar_run.py", "kernel.py", os.path.join("..", "spec", "valid_prefixes.json")):
         with open(os.path.join(d, f), "rb") as fh:
             h.update(fh.read())
     return h.hexdigest()[:16]
@@ -114,6 +114,22 @@ def get(prog):
     for kbit in grammar_ai.bits(A):
         if STMT in prog.bodies:      # (`item` is not probed: it parses the whole remaining statement list)
             blk_keys[(STMT, ai.kname[kbit])] = _run(STMT, win=(LC, RC, (1 << kbit), A, 0, 0), args=(grammar_ai.PARSER,))
+    # ---- valid-prefix probes (C04.2): up to four token kinds that begin a valid statement, at both entry points
+    import json as _json
+    pref_keys = {}
+    try:
+        prefixes = _json.load(open(os.path.join(os.path.dirname(os.path.dirname(os.path.abspath(__file__))), "spec", "valid_prefixes.json")))["prefixes"]
+    except Exception:
+        prefixes = []
+    for e in prefixes:
+        toks = e["tokens"]
+        if not all(t in ai.kdisc for t in toks):
+            pref_keys[(tuple(toks), "?")] = None
+            continue
+        w = tuple((1 << ai.kdisc[toks[i]]) if i < len(toks) else A for i in range(4)) + (0, 0)
+        for fn, args in ((ITEM, (grammar_ai.PARSER, grammar_ai.B_F)), (STMT, (grammar_ai.PARSER,))):
+            if fn in prog.bodies:
+                pref_keys[(tuple(toks), fn)] = _run(fn, win=w, args=args)
     r = GResult()
     r.cache_hit = False
     r.wall = time.time() - t0
@@ -167,6 +183,9 @@ def get(prog):
         r.lhs_probe[(kn, pref)] = sorted(set((o[5][0] == "agg" and o[5][2] == 1, o[2], o[1]) for o in outs))   # (returns Some, error, consumed)
     r.list_probe = {k: sorted(set((o[1], o[2]) for o in ai.memo[k0])) for k, k0 in list_keys.items()}     # (consumed, error)
     r.block_probe = {k: sorted(set((o[0][0], o[1], o[2]) for o in ai.memo[k0])) for k, k0 in blk_keys.items()}     # (next-token set after the statement, consumed, error)
+    r.prefix_probe = {k: (sorted(set((o[1], o[2]) for o in ai.memo[k0])) if k0 is not None else None) for k, k0 in pref_keys.items()}
+    r.cm_kinds = dict(ai.cm_kinds)
+    r.allkinds = {d: n for n, d in prog.enum_variants("oq3_parser::syntax_kind::syntax_kind_enum::SyntaxKind")}
     r.callargs = {k: sorted(v, key=repr) for k, v in ai.callargs.items()}
     r.memo = {k: sorted(v, key=repr) for k, v in ai.memo.items()}
     r.rootkey = rootkey
